@@ -3,13 +3,20 @@
 //! (A) formula level: `Bm25Weight::{for_one_term, boost_by, score, max_score, explain}` and
 //!     `FieldNormReader::{id_to_fieldnorm, fieldnorm_to_id}` (all public) vs `Model/Bm25.lean`
 //!     evaluated in Float32 — bit for bit, sweeping all 256 field-norm codes.
-//! (B) index level: the same generated documents indexed under 1..6 segmentations (no deletes);
-//!     the inputs of the formula (N, total tokens, doc_freq, tf, fieldnorm id) read through the
-//!     public API AND recomputed from the generated documents; scores from TopDocs, from a
-//!     scoring custom collector and from `Query::explain` compared with the model: bit for bit
-//!     for single scoring clauses (term, boosted term, const) and for sums / dis-max of at most
-//!     two matching clauses (IEEE addition is commutative), within 4 ulp per clause otherwise;
-//!     single-clause scores bit-identical across segmentations.
+//! (B) index level: the same generated documents (token sequences with repeated 2-3 term phrases)
+//!     indexed under 1..6 segmentations, incl. segments larger than one and two 4096-document
+//!     windows of the buffered union scorer; the inputs of the formula (N, total tokens, doc_freq,
+//!     tf, fieldnorm id) read through the public API AND recomputed from the generated documents.
+//!     Oracles on the implementation alone, for EVERY matching document: a boolean query scores
+//!     the sum of its matching clauses' own scores and a dis-max query max + tie·(sum − max) of
+//!     them (clauses evaluated on their own on the same searcher); TopDocs = scoring collector;
+//!     scores independent of the segmentation; explain = collected score (documents of every
+//!     window). Then the model: score with the document's OWN tf / phrase count — bit for bit for
+//!     single clauses (term, phrase, boosted, const) and sums / dis-max of at most two matching
+//!     clauses (IEEE addition is commutative), within 4 ulp per clause otherwise. Phrases:
+//!     2-3 terms slop 0 (frequency counted from the documents) and 2 terms slop 1 (frequency taken
+//!     from the implementation's stand-alone phrase scorer), alone and as leading / non-leading
+//!     legs of conjunctions and inside boolean trees.
 use crate::rng::Rng;
 use crate::Ctx;
 use serde_json::{json, Value};
@@ -138,29 +145,58 @@ fn part_a(ctx: &mut Ctx) {
 // (B) index level
 // ---------------------------------------------------------------------------------------------
 
+
 #[derive(Clone, Debug)]
 struct GenDoc {
-    /// (term index in VOCAB, count); the field length is the sum of the counts
-    counts: Vec<(usize, u32)>,
+    /// the analysed document: token ids (indices into VOCAB) in order
+    toks: Vec<u8>,
+}
+
+/// mirrors phrase_scorer.rs::intersection_count_with_slop (two-term phrases with slop): the
+/// greedy left-to-right matching that defines the phrase frequency of a sloppy two-term phrase
+fn count_with_slop(left: &[u32], right: &[u32], slop: u32) -> u32 {
+    let (mut li, mut ri, mut count) = (0usize, 0usize, 0u32);
+    while li < left.len() && ri < right.len() {
+        let (l, r) = (left[li], right[ri]);
+        if l.abs_diff(r) <= slop {
+            while li + 1 < left.len() && left[li + 1] <= r {
+                li += 1;
+            }
+            count += 1;
+            li += 1;
+            ri += 1;
+        } else if l < r {
+            li += 1;
+        } else {
+            ri += 1;
+        }
+    }
+    count
 }
 
 impl GenDoc {
     fn len(&self) -> u32 {
-        self.counts.iter().map(|c| c.1).sum()
+        self.toks.len() as u32
     }
     fn tf(&self, t: usize) -> u32 {
-        self.counts.iter().filter(|c| c.0 == t).map(|c| c.1).sum()
+        self.toks.iter().filter(|x| **x as usize == t).count() as u32
     }
-    /// occurrences of the two-term phrase `a b` (a != b): adjacent runs
-    fn phrase_count(&self, a: usize, b: usize) -> u32 {
-        self.counts.windows(2).filter(|w| w[0].0 == a && w[1].0 == b && w[0].1 > 0 && w[1].1 > 0).count() as u32
+    /// the document's own phrase frequency: occurrences of the (distinct) terms in sequence for
+    /// slop 0; for a two-term phrase with slop the greedy matching of the phrase scorer
+    fn phrase_count(&self, terms: &[usize], slop: u32) -> u32 {
+        if slop == 0 || terms.len() != 2 {
+            if self.toks.len() < terms.len() {
+                return 0;
+            }
+            self.toks.windows(terms.len()).filter(|w| w.iter().zip(terms).all(|(x, t)| *x as usize == *t)).count() as u32
+        } else {
+            let left: Vec<u32> = self.toks.iter().enumerate().filter(|(_, x)| **x as usize == terms[0]).map(|(i, _)| i as u32 + 1).collect();
+            let right: Vec<u32> = self.toks.iter().enumerate().filter(|(_, x)| **x as usize == terms[1]).map(|(i, _)| i as u32).collect();
+            count_with_slop(&left, &right, slop)
+        }
     }
     fn text(&self) -> String {
-        let mut toks: Vec<&str> = vec![];
-        for (t, c) in &self.counts {
-            toks.extend(std::iter::repeat(VOCAB[*t]).take(*c as usize));
-        }
-        toks.join(" ")
+        self.toks.iter().map(|t| VOCAB[*t as usize]).collect::<Vec<_>>().join(" ")
     }
 }
 
@@ -168,7 +204,8 @@ impl GenDoc {
 struct DocsSpec {
     seed: u64,
     n: usize,
-    /// 0: short docs; 1: one document per field-norm bucket (sweep); 2: mixed with a few long ones
+    /// 0: short docs; 1: one document per field-norm bucket (sweep); 2: mixed with a few long ones;
+    /// 3: many short documents (segments larger than the 4096-document window of the union scorer)
     profile: u8,
     /// share of the documents deleted after indexing (the statistics keep counting them)
     delete_permille: u64,
@@ -199,28 +236,54 @@ fn gen_docs(spec: &DocsSpec) -> Vec<GenDoc> {
                 let hi = FieldNormReader::id_to_fieldnorm(id + 1).max(lo + 1);
                 if rng.chance(1, 2) { lo } else { lo + rng.below((hi - lo) as u64) as u32 }
             }
+            3 => 1 + rng.below(9) as u32,
             _ => match rng.below(20) { 0 => 300 + rng.below(3000) as u32, 1 => 40 + rng.below(60) as u32, _ => 1 + rng.below(30) as u32 },
         };
         let mut left = len;
-        let mut counts = vec![];
+        let mut toks: Vec<u8> = Vec::with_capacity(len as usize);
         for t in 0..5usize {
             let p = [60u64, 40, 25, 10, 4][t];
             if left > 0 && rng.below(100) < p {
                 let c = match rng.below(8) { 0..=4 => 1, 5 => 1 + rng.below(5) as u32, 6 => 1 + rng.below(left as u64) as u32, _ => 2 };
                 let c = c.min(left);
-                counts.push((t, c));
+                toks.extend(std::iter::repeat(t as u8).take(c as usize));
                 left -= c;
             }
         }
-        if left > 0 {
-            counts.push((5, left));
-        }
+        toks.extend(std::iter::repeat(5u8).take(left as usize));
         // a second run of a term already present (tf must add up)
-        if rng.chance(1, 6) && !counts.is_empty() {
-            let t = counts[0].0;
-            counts.push((t, 1));
+        if rng.chance(1, 6) && toks.len() >= 2 {
+            let t = toks[0];
+            let l = toks.len();
+            toks[l - 1] = t;
         }
-        docs.push(GenDoc { counts });
+        // repeated phrases: k occurrences of a 2-3 term sequence, sometimes with a gap (slop),
+        // written over a slice of the document (the length is kept)
+        if rng.chance(2, 5) {
+            let mut ts = [0u8, 1, 2];
+            let a = rng.usize_below(3);
+            ts.swap(0, a);
+            let b = 1 + rng.usize_below(2);
+            ts.swap(1, b);
+            let nterms = 2 + rng.usize_below(2);
+            let gap = rng.chance(1, 4);
+            let reps = 1 + rng.usize_below(5);
+            let mut pat: Vec<u8> = vec![];
+            for _ in 0..reps {
+                for (k, t) in ts[..nterms].iter().enumerate() {
+                    if gap && k == 1 { pat.push(5); }
+                    pat.push(*t);
+                }
+                if rng.chance(1, 3) { pat.push(5); }
+            }
+            if pat.len() <= toks.len() {
+                let at = rng.usize_below(toks.len() - pat.len() + 1);
+                toks[at..at + pat.len()].copy_from_slice(&pat);
+            } else if toks.len() >= nterms {
+                toks[..nterms].copy_from_slice(&ts[..nterms]);
+            }
+        }
+        docs.push(GenDoc { toks });
     }
     docs
 }
@@ -288,8 +351,9 @@ impl SegmentCollector for AllHitsSeg {
 #[derive(Clone, Debug)]
 enum Q {
     Term(usize),
-    /// two-term phrase, slop 0 (the phrase count plays the role of tf, idf is summed)
-    Phrase(usize, usize),
+    /// phrase of 2-3 distinct terms with a slop (the document's phrase count plays the role of
+    /// tf, the idf is summed over the terms)
+    Phrase(Vec<usize>, u32),
     Boost(Box<Q>, f32),
     Const(Box<Q>, f32),
     Should(Vec<Q>),
@@ -297,11 +361,40 @@ enum Q {
     DisMax(Vec<Q>, f32),
 }
 
+/// Frequencies of phrases WITH SLOP, per document id, as the implementation's own stand-alone
+/// phrase scorer reports them (`explain` → "freq"): the sloppy phrase frequency is defined by a
+/// greedy matching whose left side is the cheaper term of the segment (DESIGN §8 S6 territory),
+/// so it is taken from the implementation, per segmentation; exact phrases (slop 0) are counted
+/// from the generated documents.
+type Sloppy = HashMap<String, HashMap<u64, u32>>;
+
+fn find_freq(v: &Value) -> Option<f64> {
+    if v["description"].as_str().map(|d| d.starts_with("freq,")).unwrap_or(false) {
+        return v["value"].as_f64();
+    }
+    v["details"].as_array()?.iter().find_map(find_freq)
+}
+
 impl Q {
+    fn phrase_freq(&self, id: u64, d: &GenDoc, env: &Sloppy) -> u32 {
+        match self {
+            Q::Phrase(ts, 0) => d.phrase_count(ts, 0),
+            Q::Phrase(_, _) => env.get(&self.to_json().to_string()).and_then(|m| m.get(&id)).cloned().unwrap_or(0),
+            _ => 0,
+        }
+    }
+    fn sloppy_phrases(&self, out: &mut Vec<Q>) {
+        match self {
+            Q::Phrase(_, s) if *s > 0 => out.push(self.clone()),
+            Q::Boost(q, _) | Q::Const(q, _) => q.sloppy_phrases(out),
+            Q::Should(qs) | Q::Must(qs) | Q::DisMax(qs, _) => qs.iter().for_each(|q| q.sloppy_phrases(out)),
+            _ => {}
+        }
+    }
     fn build(&self, body: Field) -> Box<dyn Query> {
         match self {
             Q::Term(t) => Box::new(TermQuery::new(Term::from_field_text(body, VOCAB[*t]), IndexRecordOption::WithFreqs)),
-            Q::Phrase(a, b) => Box::new(tantivy::query::PhraseQuery::new(vec![Term::from_field_text(body, VOCAB[*a]), Term::from_field_text(body, VOCAB[*b])])),
+            Q::Phrase(ts, slop) => Box::new(tantivy::query::PhraseQuery::new_with_offset_and_slop(ts.iter().enumerate().map(|(i, t)| (i, Term::from_field_text(body, VOCAB[*t]))).collect(), *slop)),
             Q::Boost(q, b) => Box::new(BoostQuery::new(q.build(body), *b)),
             Q::Const(q, c) => Box::new(ConstScoreQuery::new(q.build(body), *c)),
             Q::Should(qs) => Box::new(BooleanQuery::new(qs.iter().map(|q| (Occur::Should, q.build(body))).collect())),
@@ -309,34 +402,34 @@ impl Q {
             Q::DisMax(qs, tie) => Box::new(DisjunctionMaxQuery::with_tie_breaker(qs.iter().map(|q| q.build(body)).collect(), *tie)),
         }
     }
-    fn matches(&self, d: &GenDoc) -> bool {
+    fn matches(&self, id: u64, d: &GenDoc, env: &Sloppy) -> bool {
         match self {
             Q::Term(t) => d.tf(*t) > 0,
-            Q::Phrase(a, b) => d.phrase_count(*a, *b) > 0,
-            Q::Boost(q, _) | Q::Const(q, _) => q.matches(d),
-            Q::Should(qs) | Q::DisMax(qs, _) => qs.iter().any(|q| q.matches(d)),
-            Q::Must(qs) => qs.iter().all(|q| q.matches(d)),
+            Q::Phrase(_, _) => self.phrase_freq(id, d, env) > 0,
+            Q::Boost(q, _) | Q::Const(q, _) => q.matches(id, d, env),
+            Q::Should(qs) | Q::DisMax(qs, _) => qs.iter().any(|q| q.matches(id, d, env)),
+            Q::Must(qs) => qs.iter().all(|q| q.matches(id, d, env)),
         }
     }
     /// RPN of the model tree restricted to the clauses matching `d`; also
     /// (exactly comparable?, number of float additions/multiplications that may reorder)
-    fn rpn(&self, d: &GenDoc, df: &[u64], fid: u8, out: &mut Vec<String>) -> (bool, usize) {
+    fn rpn(&self, id: u64, d: &GenDoc, env: &Sloppy, df: &[u64], fid: u8, out: &mut Vec<String>) -> (bool, usize) {
         match self {
             Q::Term(t) => {
                 out.push(format!("t.{}.{fid}.{}", df[*t], d.tf(*t)));
                 (true, 1)
             }
-            Q::Phrase(a, b) => {
-                out.push(format!("p.{}+{}.{fid}.{}", df[*a], df[*b], d.phrase_count(*a, *b)));
+            Q::Phrase(ts, _) => {
+                out.push(format!("p.{}.{fid}.{}", ts.iter().map(|t| df[*t].to_string()).collect::<Vec<_>>().join("+"), self.phrase_freq(id, d, env)));
                 (true, 1)
             }
             Q::Boost(q, b) => {
-                let r = q.rpn(d, df, fid, out);
+                let r = q.rpn(id, d, env, df, fid, out);
                 out.push(format!("b.{}", b.to_bits()));
                 r
             }
             Q::Const(q, c) => {
-                let r = q.rpn(d, df, fid, out);
+                let r = q.rpn(id, d, env, df, fid, out);
                 out.push(format!("c.{}", c.to_bits()));
                 (true, r.1.min(1))
             }
@@ -345,8 +438,8 @@ impl Q {
                 let mut units = 0;
                 let mut k = 0;
                 for q in qs {
-                    if q.matches(d) {
-                        let r = q.rpn(d, df, fid, out);
+                    if q.matches(id, d, env) {
+                        let r = q.rpn(id, d, env, df, fid, out);
                         exact &= r.0;
                         units += r.1;
                         k += 1;
@@ -369,12 +462,49 @@ impl Q {
         }
     }
     /// a ConstScore clause (below a boolean) that does not match `d`
-    fn has_nonmatching_const(&self, d: &GenDoc) -> bool {
+    fn has_nonmatching_const(&self, id: u64, d: &GenDoc, env: &Sloppy) -> bool {
         match self {
             Q::Term(_) | Q::Phrase(_, _) => false,
-            Q::Const(q, _) => !q.matches(d),
-            Q::Boost(q, _) => q.has_nonmatching_const(d),
-            Q::Should(qs) | Q::Must(qs) | Q::DisMax(qs, _) => qs.iter().any(|q| q.has_nonmatching_const(d)),
+            Q::Const(q, _) => !q.matches(id, d, env),
+            Q::Boost(q, _) => q.has_nonmatching_const(id, d, env),
+            Q::Should(qs) | Q::Must(qs) | Q::DisMax(qs, _) => qs.iter().any(|q| q.has_nonmatching_const(id, d, env)),
+        }
+    }
+    /// a phrase clause (below a boolean) that does not match `d`
+    fn has_nonmatching_phrase(&self, id: u64, d: &GenDoc, env: &Sloppy) -> bool {
+        match self {
+            Q::Term(_) => false,
+            Q::Phrase(_, _) => !self.matches(id, d, env),
+            Q::Const(q, _) | Q::Boost(q, _) => q.has_nonmatching_phrase(id, d, env),
+            Q::Should(qs) | Q::Must(qs) | Q::DisMax(qs, _) => qs.iter().any(|q| q.has_nonmatching_phrase(id, d, env)),
+        }
+    }
+    /// a phrase clause inside a Should / dis-max that is itself (below) a clause of a Must: the
+    /// union is then driven by an intersection through seek_danger
+    fn phrase_in_union_in_must(&self, in_must: bool, in_union: bool) -> bool {
+        match self {
+            Q::Term(_) => false,
+            Q::Phrase(_, _) => in_must && in_union,
+            Q::Const(q, _) | Q::Boost(q, _) => q.phrase_in_union_in_must(in_must, in_union),
+            Q::Must(qs) => qs.iter().any(|q| q.phrase_in_union_in_must(true, false)),
+            Q::Should(qs) | Q::DisMax(qs, _) => qs.iter().any(|q| q.phrase_in_union_in_must(in_must, in_must)),
+        }
+    }
+    fn has_sloppy(&self) -> bool {
+        let mut v = vec![];
+        self.sloppy_phrases(&mut v);
+        !v.is_empty()
+    }
+    /// the same query with exact phrases only (large corpora: no per-document explain)
+    fn without_slop(&self) -> Q {
+        match self {
+            Q::Term(t) => Q::Term(*t),
+            Q::Phrase(ts, _) => Q::Phrase(ts.clone(), 0),
+            Q::Boost(q, b) => Q::Boost(Box::new(q.without_slop()), *b),
+            Q::Const(q, c) => Q::Const(Box::new(q.without_slop()), *c),
+            Q::Should(qs) => Q::Should(qs.iter().map(|q| q.without_slop()).collect()),
+            Q::Must(qs) => Q::Must(qs.iter().map(|q| q.without_slop()).collect()),
+            Q::DisMax(qs, t) => Q::DisMax(qs.iter().map(|q| q.without_slop()).collect(), *t),
         }
     }
     fn single_clause(&self) -> bool {
@@ -384,10 +514,22 @@ impl Q {
             _ => false,
         }
     }
+    fn kind(&self) -> &'static str {
+        match self {
+            Q::Term(_) => "term",
+            Q::Phrase(_, 0) => "phrase",
+            Q::Phrase(_, _) => "phrase-slop",
+            Q::Boost(_, _) => "boost",
+            Q::Const(_, _) => "const",
+            Q::Should(qs) => if qs.iter().any(|q| matches!(q, Q::Phrase(_, _))) { "should+phrase" } else { "should" },
+            Q::Must(qs) => if qs.iter().any(|q| matches!(q, Q::Phrase(_, _))) { "must+phrase" } else { "must" },
+            Q::DisMax(_, t) => if *t == 0.0 { "dismax-tie0" } else { "dismax-tie" },
+        }
+    }
     fn to_json(&self) -> Value {
         match self {
             Q::Term(t) => json!({"term": t}),
-            Q::Phrase(a, b) => json!({"phrase": [a, b]}),
+            Q::Phrase(ts, slop) => json!({"phrase": ts, "slop": slop}),
             Q::Boost(q, b) => json!({"boost": b.to_bits(), "q": q.to_json()}),
             Q::Const(q, c) => json!({"const": c.to_bits(), "q": q.to_json()}),
             Q::Should(qs) => json!({"should": qs.iter().map(|q| q.to_json()).collect::<Vec<_>>()}),
@@ -398,13 +540,24 @@ impl Q {
     fn from_json(v: &Value) -> Option<Q> {
         let list = |v: &Value| -> Option<Vec<Q>> { v.as_array()?.iter().map(Q::from_json).collect() };
         if let Some(t) = v.get("term") { return Some(Q::Term(t.as_u64()? as usize)); }
-        if let Some(t) = v.get("phrase") { return Some(Q::Phrase(t[0].as_u64()? as usize, t[1].as_u64()? as usize)); }
+        if let Some(t) = v.get("phrase") { return Some(Q::Phrase(t.as_array()?.iter().filter_map(|x| x.as_u64().map(|y| y as usize)).collect(), v["slop"].as_u64().unwrap_or(0) as u32)); }
         if let Some(b) = v.get("boost") { return Some(Q::Boost(Box::new(Q::from_json(&v["q"])?), f32::from_bits(b.as_u64()? as u32))); }
         if let Some(b) = v.get("const") { return Some(Q::Const(Box::new(Q::from_json(&v["q"])?), f32::from_bits(b.as_u64()? as u32))); }
         if let Some(l) = v.get("should") { return Some(Q::Should(list(l)?)); }
         if let Some(l) = v.get("must") { return Some(Q::Must(list(l)?)); }
         if let Some(l) = v.get("dismax") { return Some(Q::DisMax(list(l)?, f32::from_bits(v["tie"].as_u64()? as u32))); }
         None
+    }
+}
+
+fn gen_phrase(rng: &mut Rng) -> Q {
+    let mut ts: Vec<usize> = vec![0, 1, 2];
+    rng.shuffle(&mut ts);
+    match rng.below(4) {
+        0 => Q::Phrase(ts, 0),
+        1 => Q::Phrase(ts[..2].to_vec(), 1),
+        2 => Q::Phrase(vec![ts[0], 5], 0),
+        _ => Q::Phrase(ts[..2].to_vec(), 0),
     }
 }
 
@@ -417,18 +570,24 @@ fn gen_query(rng: &mut Rng) -> Q {
         ts.into_iter().map(Q::Term).collect()
     };
     let boosts = [2.0f32, 0.5, 3.3, 1.0, 0.1, 7.25];
-    match rng.below(14) {
-        12 => { let a = rng.usize_below(3); let b = (a + 1 + rng.usize_below(2)) % 3; if rng.chance(1, 2) { Q::Phrase(a, 5) } else { Q::Phrase(a, b) } }
-        13 => Q::Boost(Box::new(Q::Phrase(rng.usize_below(2), 5)), 2.0),
+    match rng.below(20) {
         0 | 1 => term(rng),
         2 | 3 => Q::Boost(Box::new(term(rng)), boosts[rng.usize_below(6)]),
         4 => Q::Const(Box::new(term(rng)), [1.0f32, 0.3, 2.5][rng.usize_below(3)]),
         5 | 6 => { let n = 2 + rng.usize_below(3); Q::Should(terms(rng, n)) }
         7 => { let n = 2 + rng.usize_below(2); Q::Must(terms(rng, n)) }
-        8 => { let n = 2 + rng.usize_below(2); Q::DisMax(terms(rng, n), [0.0f32, 0.3, 1.0][rng.usize_below(3)]) }
-        9 => Q::Boost(Box::new(Q::Should(terms(rng, 2))), boosts[rng.usize_below(6)]),
-        10 => { let ts = terms(rng, 3); Q::Should(vec![ts[0].clone(), Q::Boost(Box::new(ts[1].clone()), 2.0), Q::Const(Box::new(ts[2].clone()), 1.5)]) }
-        _ => Q::Boost(Box::new(Q::Boost(Box::new(term(rng)), 3.0)), 0.7),
+        8 | 9 => { let n = 2 + rng.usize_below(3); Q::DisMax(terms(rng, n), [0.0f32, 0.3, 1.0, 0.7][rng.usize_below(4)]) }
+        10 => Q::Boost(Box::new(Q::Should(terms(rng, 2))), boosts[rng.usize_below(6)]),
+        11 => { let ts = terms(rng, 3); Q::Should(vec![ts[0].clone(), Q::Boost(Box::new(ts[1].clone()), 2.0), Q::Const(Box::new(ts[2].clone()), 1.5)]) }
+        12 => Q::Boost(Box::new(Q::Boost(Box::new(term(rng)), 3.0)), 0.7),
+        13 | 14 => gen_phrase(rng),
+        15 => Q::Boost(Box::new(gen_phrase(rng)), 2.0),
+        // a phrase as a leg of a conjunction: with a rarer term (the phrase is the non-leading,
+        // more costly leg) and with a frequent one (the phrase may lead)
+        16 => Q::Must(vec![Q::Term(3 + rng.usize_below(2)), gen_phrase(rng)]),
+        17 => Q::Must(vec![gen_phrase(rng), Q::Term(rng.usize_below(5))]),
+        18 => Q::Should(vec![gen_phrase(rng), term(rng)]),
+        _ => Q::Must(vec![term(rng), Q::Should(vec![gen_phrase(rng), term(rng)])]),
     }
 }
 
@@ -450,10 +609,20 @@ fn open_seg(built: &Built) -> Seg {
     Seg { searcher, by_id }
 }
 
+/// scores of every matching document of `q`, from the non-pruning scoring collector
+fn standalone_scores(searcher: &Searcher, body: Field, q: &Q) -> Option<HashMap<DocAddress, Score>> {
+    let query = q.build(body);
+    let hits = catch_unwind(AssertUnwindSafe(|| searcher.search(query.as_ref(), &AllHits))).ok()?.ok()?;
+    Some(hits.into_iter().map(|(o, d, s)| (DocAddress::new(o, d), s)).collect())
+}
+
 #[allow(clippy::too_many_arguments)]
 fn corpus_case(ctx: &mut Ctx, spec: &DocsSpec, segmentations: &[Vec<usize>], queries: &[Q], explain_samples: usize, rng: &mut Rng) {
     let docs = gen_docs(spec);
     let deleted = deleted_ids(spec);
+    let large = docs.len() > 2500;
+    let exact_only: Vec<Q>;
+    let queries: &[Q] = if large { exact_only = queries.iter().map(|q| q.without_slop()).collect(); &exact_only } else { queries };
     let case_base = json!({"docs": [spec.seed.to_string(), spec.n, spec.profile, spec.delete_permille], "segmentations": segmentations});
     // independent recomputation of the formula's inputs from the generated documents
     // (with deletes: the statistics keep counting deleted documents, except that a segment whose
@@ -481,7 +650,7 @@ fn corpus_case(ctx: &mut Ctx, spec: &DocsSpec, segmentations: &[Vec<usize>], que
     if n_docs == 0 {
         return;
     }
-    // scores of single-clause queries per (query index, doc id) in the first segmentation
+    // scores per (query index, doc id) in the first segmentation
     let mut reference: HashMap<(usize, u64), u32> = HashMap::new();
     for (si, cuts) in segmentations.iter().enumerate() {
         let built = build(&docs, cuts, &deleted);
@@ -491,6 +660,8 @@ fn corpus_case(ctx: &mut Ctx, spec: &DocsSpec, segmentations: &[Vec<usize>], que
         let body = built.body;
         let nseg = searcher.segment_readers().len();
         ctx.report.count(&format!("segments:{nseg}"));
+        let max_seg = searcher.segment_readers().iter().map(|r| r.max_doc()).max().unwrap_or(0);
+        ctx.report.count(if max_seg > 8192 { "largest-segment:>8192" } else if max_seg > 4096 { "largest-segment:4097-8192" } else { "largest-segment:<=4096" });
         let case = |extra: Value| -> Value { let mut c = case_base.clone(); c["kind"] = json!("corpus"); c["segmentation"] = json!(si); c["at"] = extra; c };
         // ---- inputs through the public API ----
         let api_n = searcher.total_num_docs().unwrap_or(u64::MAX);
@@ -543,7 +714,7 @@ fn corpus_case(ctx: &mut Ctx, spec: &DocsSpec, segmentations: &[Vec<usize>], que
                 let mut parts: Vec<Vec<String>> = vec![vec![]];
                 for (j, d) in docs.iter().enumerate() {
                     if cutset.contains(&j) && j > 0 { parts.push(vec![]); }
-                    let toks: Vec<String> = d.counts.iter().flat_map(|(t, c)| std::iter::repeat(t.to_string()).take(*c as usize)).collect();
+                    let toks: Vec<String> = d.toks.iter().map(|t| t.to_string()).collect();
                     parts.last_mut().unwrap().push(if toks.is_empty() { "-".into() } else { toks.join(".") });
                 }
                 parts.iter().map(|p| p.join(",")).collect::<Vec<_>>().join("|")
@@ -555,71 +726,117 @@ fn corpus_case(ctx: &mut Ctx, spec: &DocsSpec, segmentations: &[Vec<usize>], que
                 ctx.report.violation("model", "C12:model-stats-differ", format!("model statistics {resp} vs API N={api_n} tokens={api_tokens} n(a)={}", df[0]), case(json!("model-stats")));
             }
         }
+        // frequencies of the sloppy phrases, from the implementation's stand-alone phrase scorer
+        let id_cols0: Vec<_> = searcher.segment_readers().iter().map(|r| r.fast_fields().u64("id").unwrap()).collect();
+        let mut env: Sloppy = HashMap::new();
+        let mut sloppy = vec![];
+        queries.iter().for_each(|q| q.sloppy_phrases(&mut sloppy));
+        for ph in &sloppy {
+            let key = ph.to_json().to_string();
+            if env.contains_key(&key) {
+                continue;
+            }
+            let query = ph.build(body);
+            let mut m = HashMap::new();
+            if let Some(hits) = standalone_scores(searcher, body, ph) {
+                for addr in hits.keys() {
+                    if let Ok(Ok(e)) = catch_unwind(AssertUnwindSafe(|| query.explain(searcher, *addr))) {
+                        if let Some(f) = serde_json::from_str::<Value>(&e.to_pretty_json()).ok().and_then(|v| find_freq(&v)) {
+                            m.insert(id_cols0[addr.segment_ord as usize].first(addr.doc_id).unwrap(), f as u32);
+                        }
+                    }
+                }
+            }
+            env.insert(key, m);
+        }
+        let env = &env;
         // ---- scores ----
         for (qi, q) in queries.iter().enumerate() {
             let query = q.build(body);
-            ctx.report.count(&format!("query:{}", match q { Q::Term(_) => "term", Q::Phrase(_, _) => "phrase", Q::Boost(_, _) => "boost", Q::Const(_, _) => "const", Q::Should(_) => "should", Q::Must(_) => "must", Q::DisMax(_, _) => "dismax" }));
+            ctx.report.count(&format!("query:{}", q.kind()));
             let hits = match catch_unwind(AssertUnwindSafe(|| searcher.search(query.as_ref(), &AllHits))) {
                 Ok(Ok(h)) => h,
-                _ => { ctx.report.violation("oracle", "C12:search-failed", format!("scoring collector failed on {}", q.to_json()), case(json!({"query": q.to_json()}))); continue }
+                Ok(Err(e)) => { ctx.report.violation("oracle", "C12:search-failed", format!("scoring collector failed on {}: {e}", q.to_json()), case(json!({"query": q.to_json()}))); continue }
+                Err(p) => {
+                    let msg = p.downcast_ref::<String>().cloned().or_else(|| p.downcast_ref::<&str>().map(|s| s.to_string())).unwrap_or_default();
+                    // recorded (C13) defect: BufferedUnionScorer::seek_danger hands a child a target
+                    // below the child's current doc; PhraseScorer::seek_danger debug-asserts on it
+                    let key = if msg.starts_with("target (") && msg.contains("should be greater than or equal to doc (") && q.phrase_in_union_in_must(false, false) { "C12:phrase-seek-danger-target-below-doc-assert" } else { "C12:search-panicked" };
+                    ctx.report.violation("oracle", key, format!("scoring collector panicked on {}: {msg}", q.to_json()), case(json!({"query": q.to_json()})));
+                    continue
+                }
             };
-            let expected_matches = docs.iter().enumerate().filter(|(j, d)| !deleted.contains(&(*j as u64)) && q.matches(d)).count();
+            let expected_matches = docs.iter().enumerate().filter(|(j, d)| !deleted.contains(&(*j as u64)) && q.matches(*j as u64, d, env)).count();
             if hits.len() != expected_matches {
                 // not this property's subject (C03), but scores cannot be compared then
                 ctx.report.notes.push(format!("query {} matched {} documents, expected {expected_matches}", q.to_json(), hits.len()));
+                ctx.report.count("match-set-differs(not compared)");
                 continue;
             }
             let top: HashMap<DocAddress, Score> = match catch_unwind(AssertUnwindSafe(|| searcher.search(query.as_ref(), &TopDocs::with_limit(hits.len().max(1)).order_by_score()))) {
                 Ok(Ok(t)) => t.into_iter().map(|(s, a)| (a, s)).collect(),
                 _ => { ctx.report.violation("oracle", "C12:search-failed", format!("TopDocs failed on {}", q.to_json()), case(json!({"query": q.to_json()}))); continue }
             };
+            // the clauses of a boolean / dis-max query evaluated on their own (same searcher)
+            let children: Option<(Vec<HashMap<DocAddress, Score>>, Option<f32>, &Vec<Q>)> = match q {
+                Q::Should(qs) | Q::Must(qs) => qs.iter().map(|c| standalone_scores(searcher, body, c)).collect::<Option<Vec<_>>>().map(|v| (v, None, qs)),
+                Q::DisMax(qs, tie) => qs.iter().map(|c| standalone_scores(searcher, body, c)).collect::<Option<Vec<_>>>().map(|v| (v, Some(*tie), qs)),
+                _ => None,
+            };
             let id_cols: Vec<_> = searcher.segment_readers().iter().map(|r| r.fast_fields().u64("id").unwrap()).collect();
-            let mut explain_left = explain_samples;
-            for (ord, doc, score) in &hits {
+            let explain_p = (explain_samples as u64).saturating_mul(2).min(hits.len() as u64).max(1);
+            let stride = (hits.len() / 40).max(1);
+            for (hi, (ord, doc, score)) in hits.iter().enumerate() {
                 let id = id_cols[*ord as usize].first(*doc).unwrap();
                 let d = &docs[id as usize];
                 let addr = DocAddress::new(*ord, *doc);
                 let fid = fid_of[&id];
                 let mut rpn = vec![];
-                let (exact, units) = q.rpn(d, &df, fid, &mut rpn);
-                let resp = ctx.model.ask(&format!("C12 tree {n_docs} {tokens} {}", rpn.join(",")));
-                let mv: Vec<u32> = resp.split(' ').filter_map(|x| x.parse().ok()).collect();
+                let (exact, units) = q.rpn(id, d, env, &df, fid, &mut rpn);
                 let at = json!({"query": q.to_json(), "doc": id});
-                let canon = format!("score|{}|{}|{:?}|{}|{id}", spec.seed, spec.n, cuts, q.to_json());
-                ctx.report.case(&canon, d.len() > 1 && n_docs > 1);
-                ctx.report.count(if exact { "score-compare:bit-exact" } else { "score-compare:tolerance" });
-                if mv.len() != 2 {
-                    ctx.report.violation("model", "C12:model-bad-op", format!("model refused {resp}: {}", rpn.join(",")), case(at));
-                    continue;
-                }
-                let (m_score, m_explain) = (f32::from_bits(mv[0]), f32::from_bits(mv[1]));
                 let same = |a: f32, b: f32, exact: bool| if exact { a.to_bits() == b.to_bits() } else { (a - b).abs() <= ulp_tol(units, a, b) };
-                // scoring collector vs model
-                if !same(*score, m_score, exact) {
-                    let key = if q.single_clause() { "C12:score-differs-single-clause" } else { "C12:score-differs" };
-                    ctx.report.violation("model", key, format!("score of document {id} (len {}, fieldnorm id {fid}) for {} over {nseg} segments: real {score:?}/{:08x} model {m_score:?}/{:08x} (N={n_docs} tokens={tokens} df={:?}; {})", d.len(), q.to_json(), score.to_bits(), m_score.to_bits(), &df[..5], if exact { "bit-exact class" } else { "tolerance class" }), case(at.clone()));
-                    continue;
+                // documents around the 4096-document windows of the buffered union scorer
+                let near_window = matches!(*doc % 4096, 0..=2 | 4093..=4095);
+                // (1) a boolean query scores the sum of its matching scoring clauses, a dis-max
+                //     query max + tie·(sum − max): clause scores taken from the clauses' own
+                //     evaluation on the same searcher
+                if let Some((maps, tie, qs)) = &children {
+                    let parts: Vec<f32> = maps.iter().filter_map(|m| m.get(&addr).cloned()).collect();
+                    let all_single = qs.iter().all(|c| c.single_clause());
+                    let expected = match tie {
+                        None => parts.iter().fold(0.0f32, |a, b| a + b),
+                        Some(t) => {
+                            let max = parts.iter().fold(0.0f32, |a, b| a.max(*b));
+                            let sum = parts.iter().fold(0.0f32, |a, b| a + b);
+                            max + (sum - max) * t
+                        }
+                    };
+                    let ex = all_single && parts.len() <= 2;
+                    let ok = if ex { expected.to_bits() == score.to_bits() } else { (expected - score).abs() <= ulp_tol(units.max(parts.len() + 1), expected, *score) };
+                    ctx.report.count("clause-combination-checked");
+                    if !ok {
+                        let key = if tie.is_some() { "C12:dismax-score-not-max-plus-tie-rest" } else { "C12:boolean-score-not-sum-of-clauses" };
+                        ctx.report.violation("oracle", key, format!("document {id} (doc id {doc} of a segment of {} docs) for {}: collected score {score:?}, the matching clauses score {parts:?} on their own: expected {expected:?}", searcher.segment_reader(*ord).max_doc(), q.to_json()), case(at.clone()));
+                        continue;
+                    }
                 }
-                // TopDocs vs scoring collector (same searcher, same query, other collector)
+                // (2) TopDocs vs scoring collector (same searcher, same query, other collector)
                 match top.get(&addr) {
                     Some(ts) if same(*ts, *score, exact) => {}
                     other => {
                         // recorded defect: TopDocs on a DisjunctionMaxQuery over terms goes through
                         // block_wand, which SUMS the clause scores whatever the score combiner.
-                        // Attributed only if the TopDocs score is exactly that sum (model-evaluated).
+                        // Attributed only if the TopDocs score is exactly the sum of the clauses.
                         let mut key = "C12:score-depends-on-collector";
                         let mut extra = String::new();
-                        if let (Q::DisMax(qs, _), Some(ts)) = (q, other) {
+                        if let (Q::DisMax(qs, _), Some(ts), Some((maps, _, _))) = (q, other, &children) {
                             if qs.iter().all(|c| matches!(c, Q::Term(_))) {
-                                let mut rpn2 = vec![];
-                                let (ex2, units2) = Q::Should(qs.clone()).rpn(d, &df, fid, &mut rpn2);
-                                let r2 = ctx.model.ask(&format!("C12 tree {n_docs} {tokens} {}", rpn2.join(",")));
-                                if let Some(sum) = r2.split(' ').next().and_then(|x| x.parse::<u32>().ok()).map(f32::from_bits) {
-                                    let close = if ex2 { sum.to_bits() == ts.to_bits() } else { (sum - ts).abs() <= ulp_tol(units2, sum, *ts) };
-                                    if close {
-                                        key = "C12:dismax-topdocs-sums-clauses";
-                                        extra = format!(" [TopDocs score = SUM of the matching clauses ({sum:?}), the dis-max value is {m_score:?}]");
-                                    }
+                                let parts: Vec<f32> = maps.iter().filter_map(|m| m.get(&addr).cloned()).collect();
+                                let sum = parts.iter().fold(0.0f32, |a, b| a + b);
+                                let close = if parts.len() <= 2 { sum.to_bits() == ts.to_bits() } else { (sum - ts).abs() <= ulp_tol(parts.len() + 1, sum, *ts) };
+                                if close {
+                                    key = "C12:dismax-topdocs-sums-clauses";
+                                    extra = format!(" [TopDocs score = SUM of the matching clauses ({sum:?}), the dis-max value is {score:?}]");
                                 }
                             }
                         }
@@ -627,34 +844,59 @@ fn corpus_case(ctx: &mut Ctx, spec: &DocsSpec, segmentations: &[Vec<usize>], que
                         continue;
                     }
                 }
-                // segmentation independence, bit-identical for one scoring clause
-                if q.single_clause() {
-                    match reference.get(&(qi, id)) {
-                        None => { reference.insert((qi, id), score.to_bits()); }
-                        Some(b) if *b == score.to_bits() => { ctx.report.count("segmentation-invariance-checked"); }
-                        Some(b) => {
-                            ctx.report.violation("oracle", "C12:score-depends-on-segmentation", format!("document {id} for {}: {:?} under segmentation 0, {score:?} under segmentation {si} ({nseg} segments)", q.to_json(), f32::from_bits(*b)), case(at.clone()));
-                        }
+                // (3) segmentation independence: bit-identical in the exact class, within the
+                //     tolerance otherwise
+                match reference.get(&(qi, id)) {
+                    _ if q.has_sloppy() => { ctx.report.count("segmentation-invariance-skipped(sloppy phrase frequency is segment-dependent by construction)"); }
+                    None => { reference.insert((qi, id), score.to_bits()); }
+                    Some(b) if same(f32::from_bits(*b), *score, exact) => { ctx.report.count("segmentation-invariance-checked"); }
+                    Some(b) => {
+                        ctx.report.violation("oracle", "C12:score-depends-on-segmentation", format!("document {id} for {}: {:?} under segmentation 0, {score:?} under segmentation {si} ({nseg} segments)", q.to_json(), f32::from_bits(*b)), case(at.clone()));
+                        continue;
                     }
                 }
-                // explain
-                if explain_left > 0 && rng.chance(1, 3) {
-                    explain_left -= 1;
+                // (4) the model
+                let do_model = !large || near_window || hi % 7 == 0;
+                let mut m_explain = None;
+                if do_model {
+                    let resp = ctx.model.ask(&format!("C12 tree {n_docs} {tokens} {}", rpn.join(",")));
+                    let mv: Vec<u32> = resp.split(' ').filter_map(|x| x.parse().ok()).collect();
+                    let canon = format!("score|{}|{}|{:?}|{}|{id}", spec.seed, spec.n, cuts, q.to_json());
+                    ctx.report.case(&canon, d.len() > 1 && n_docs > 1);
+                    ctx.report.count(if exact { "score-compare:bit-exact" } else { "score-compare:tolerance" });
+                    if mv.len() != 2 {
+                        ctx.report.violation("model", "C12:model-bad-op", format!("model refused {resp}: {}", rpn.join(",")), case(at));
+                        continue;
+                    }
+                    let m_score = f32::from_bits(mv[0]);
+                    m_explain = Some(f32::from_bits(mv[1]));
+                    if !same(*score, m_score, exact) {
+                        let key = if q.single_clause() { "C12:score-differs-single-clause" } else { "C12:score-differs" };
+                        ctx.report.violation("model", key, format!("score of document {id} (len {}, fieldnorm id {fid}) for {} over {nseg} segments: real {score:?}/{:08x} model {m_score:?}/{:08x} (N={n_docs} tokens={tokens} df={:?}; {})", d.len(), q.to_json(), score.to_bits(), m_score.to_bits(), &df[..5], if exact { "bit-exact class" } else { "tolerance class" }), case(at.clone()));
+                        continue;
+                    }
+                }
+                // (5) explain: spread over the whole segment (every window of the union scorer)
+                let do_explain = if explain_samples == usize::MAX { true } else if large { near_window || hi % stride == 0 || hi + 1 == hits.len() } else { rng.below(hits.len() as u64) < explain_p };
+                if do_explain {
                     ctx.report.count("explain-compared");
+                    if *doc >= 4096 { ctx.report.count("explain-compared:doc>=4096"); }
                     match catch_unwind(AssertUnwindSafe(|| query.explain(searcher, addr))) {
                         Ok(Ok(e)) => {
                             let ev = e.value();
-                            // explain vs the model's explain expression
-                            if !same(ev, m_explain, exact) {
-                                ctx.report.violation("model", "C12:explain-differs-from-model", format!("explain of document {id} for {}: real {ev:?}/{:08x} model {m_explain:?}/{:08x}", q.to_json(), ev.to_bits(), m_explain.to_bits()), case(at.clone()));
-                            }
                             // explain vs the score: the same expression unless a boost is involved
                             // (BoostWeight::explain multiplies afterwards: rounding, ≤ 4 ulp per unit)
                             let explain_exact = exact && !q.has_boost();
                             if !same(ev, *score, explain_exact) {
-                                ctx.report.violation("oracle", "C12:explain-disagrees-with-score", format!("document {id} for {}: explain {ev:?} score {score:?}", q.to_json()), case(at.clone()));
+                                ctx.report.violation("oracle", "C12:explain-disagrees-with-score", format!("document {id} (doc id {doc}) for {}: explain {ev:?} collected score {score:?}", q.to_json()), case(at.clone()));
                             } else if q.has_boost() && ev.to_bits() != score.to_bits() {
                                 ctx.report.count("explain-boost-rounding-differs-from-score");
+                            }
+                            // explain vs the model's explain expression
+                            if let Some(me) = m_explain {
+                                if !same(ev, me, exact) {
+                                    ctx.report.violation("model", "C12:explain-differs-from-model", format!("explain of document {id} for {}: real {ev:?}/{:08x} model {me:?}/{:08x}", q.to_json(), ev.to_bits(), me.to_bits()), case(at.clone()));
+                                }
                             }
                         }
                         Ok(Err(e)) => {
@@ -662,7 +904,8 @@ fn corpus_case(ctx: &mut Ctx, spec: &DocsSpec, segmentations: &[Vec<usize>], que
                         }
                         Err(p) => {
                             let msg = p.downcast_ref::<String>().cloned().or_else(|| p.downcast_ref::<&str>().map(|s| s.to_string())).unwrap_or_default();
-                            let key = if (msg.contains("target >= self.doc()") || msg.contains("doc <= target")) && q.has_nonmatching_const(d) { "C12:explain-const-clause-seeks-backwards" } else { "C12:explain-panicked" };
+                            let backwards = msg.contains("target >= self.doc()") || msg.contains("doc <= target");
+                            let key = if backwards && q.has_nonmatching_phrase(id, d, env) { "C12:explain-phrase-clause-seeks-backwards" } else if backwards && q.has_nonmatching_const(id, d, env) { "C12:explain-const-clause-seeks-backwards" } else { "C12:explain-panicked" };
                             ctx.report.violation("oracle", key, format!("explain of a matching document {id} for {} panicked: {msg}", q.to_json()), case(at.clone()));
                         }
                     }
@@ -709,9 +952,10 @@ pub fn run(ctx: &mut Ctx) {
         "Bm25Weight::{for_one_term, boost_by, score, max_score, explain} = model Float32 evaluation, bit for bit, all 256 codes".into(),
         "Searcher statistics (total_num_docs, total_num_tokens, doc_freq) = sums recomputed from the generated documents = model statsOf/docFreqOf".into(),
         "postings tf / FieldNormReader::fieldnorm_id = recomputed from the generated documents".into(),
-        "scores of a scoring collector = model score (bit for bit for one clause and ≤2-clause sums/dis-max; 4 ulp per clause otherwise)".into(),
-        "TopDocs score = scoring collector score; single-clause scores bit-identical across 1..6 segmentations".into(),
-        "Query::explain value = model explain value; = score (bit for bit without boosts)".into(),
+        "boolean score = sum of the matching clauses' own scores; dis-max score = max + tie·(sum − max) of them (every document, every 4096-document window of segments up to > 8192 docs)".into(),
+        "scores of a scoring collector = model score with the document's own tf / phrase count (bit for bit for one clause and ≤2-clause sums/dis-max; 4 ulp per clause otherwise)".into(),
+        "TopDocs score = scoring collector score; scores independent of the segmentation (1..6 segmentations, bit-identical in the exact class)".into(),
+        "Query::explain value = collected score (bit for bit without boosts) = model explain value, for documents of every window".into(),
     ];
     if let Some(case) = ctx.replay.clone() {
         replay(ctx, &case);
@@ -721,13 +965,25 @@ pub fn run(ctx: &mut Ctx) {
     let corpora = ctx.budget(80, 1200);
     let mut rng = ctx.rng.fork();
     for c in 0..corpora {
-        let profile = (c % 3) as u8;
-        let n = match profile { 1 => [112usize, 224, 150][rng.usize_below(3)], 0 => [1usize, 2, 40, 300, 1500][rng.usize_below(5)], _ => [60usize, 400, 900][rng.usize_below(3)] };
-        let spec = DocsSpec { seed: rng.next_u64(), n, profile, delete_permille: if c % 5 == 4 { [20u64, 200][rng.usize_below(2)] } else { 0 } };
-        let how_many = 1 + rng.usize_below(3) + if c % 4 == 0 { 2 } else { 0 };
+        // every tenth corpus: segments larger than one / two windows of the buffered union scorer
+        let profile = if c % 10 == 9 { 3 } else { (c % 3) as u8 };
+        let n = match profile {
+            1 => [112usize, 224, 150][rng.usize_below(3)],
+            0 => [1usize, 2, 40, 300, 1500][rng.usize_below(5)],
+            3 => [4500usize, 6000, 9000][rng.usize_below(3)],
+            _ => [60usize, 400, 900][rng.usize_below(3)],
+        };
+        let spec = DocsSpec { seed: rng.next_u64(), n, profile, delete_permille: if c % 5 == 4 && profile != 3 { [20u64, 200][rng.usize_below(2)] } else { 0 } };
+        let how_many = if profile == 3 { 2 } else { 1 + rng.usize_below(3) + if c % 4 == 0 { 2 } else { 0 } };
         let segs = gen_segmentations(&mut rng, n, how_many);
-        let mut queries: Vec<Q> = vec![Q::Term(0), Q::Boost(Box::new(Q::Term(1)), 2.0), Q::Const(Box::new(Q::Term(0)), 0.3)];
-        for _ in 0..5 {
+        let mut queries: Vec<Q> = vec![
+            Q::Term(0),
+            Q::Boost(Box::new(Q::Term(1)), 2.0),
+            Q::Const(Box::new(Q::Term(0)), 0.3),
+            Q::DisMax(vec![Q::Term(0), Q::Term(1), Q::Term(2)], [0.3f32, 0.7, 1.0][rng.usize_below(3)]),
+            Q::Must(vec![Q::Term(3), Q::Phrase(vec![0, 1], 0)]),
+        ];
+        for _ in 0..6 {
             queries.push(gen_query(&mut rng));
         }
         let mut r2 = rng.fork();
